@@ -505,6 +505,10 @@ func main() {
 	wg.Wait()
 	if vlib.ReplayPath() == "" {
 		for _, pair := range [][2]string{{"vllm", "ollama"}, {"lm-studio", "vllm"}} {
+			for _, engine := range []string{"olla", "sherpa"} {
+				c.Emit(map[string]any{"kind": "breaker-scope", "types": pair, "impl": breakerScopeCase(engine, pair)})
+				c.Count("breaker-scope." + engine)
+			}
 			c.Emit(map[string]any{"kind": "crossfire", "types": pair, "impl": crossfire(pair, map[bool]int{false: 500, true: 4000}[tier == "thorough"], 48)})
 			c.Count("crossfire")
 		}
